@@ -262,7 +262,7 @@ open Matrix in
 /-- What `FusedMatMulTranspose` *emits* for an inner `transA=1, transB=0` is
 `FusedMatMul(B, A, transA=0, transB=1) = B · Aᵀ`; the transpose of `Aᵀ·B` is `Bᵀ·A`.  They differ
 (2×2 witness over ℚ): finding C19-F3, replayed on onnxruntime. -/
-theorem fused_matmul_transpose_as_emitted_refuted :
+theorem fused_matmul_transpose_prefix_refuted :
     ¬ (∀ (A B : Matrix (Fin 2) (Fin 2) ℚ), (Aᵀ * B)ᵀ = B * Aᵀ) := by
   intro h
   have := congrFun (congrFun (h !![0, 1; 0, 0] !![1, 0; 0, 0]) 0) 1
@@ -336,34 +336,40 @@ example : permSwap 4 = [0, 1, 3, 2] ∧ permRotL 4 = [1, 2, 3, 0] ∧ permRotR 4
 the node at run time). -/
 theorem flipped_batch_rank2_degenerate : permBatch 2 = [0, 1] ∧ permBatchInv 2 = [0, 1] := by decide
 
-/-- The model's (= the code's) decision on `FusedMatMul(Transpose(x) /* no perm */, y)`, rank 3: the rule
-set raises (finding C19-F5). -/
-theorem fused_matmul_missing_perm_raises :
+/-- Before commit 549a083: `FusedMatMul(Transpose(x) /* no perm */, y)`, rank 3 — the rule set raised
+(finding C19-F5, fixed). -/
+theorem fused_matmul_missing_perm_prefix_refuted :
     fmm { kind := "t1", rank := 3, inner := some FAttrs.empty, perm := none, cstConst := true, cstShape := [],
-          cst := 2.0 } = "EXC" := by decide
+          cst := 2.0, fix5 := false } = "EXC" := by decide
 
-/-- … and with the repair (`attributes.get_ints("perm")`) the same graph is simply left unchanged. -/
-theorem fused_matmul_missing_perm_repaired :
+/-- The current rule (`attributes.get_ints("perm")`) leaves that graph unchanged. -/
+theorem fused_matmul_missing_perm_left_unchanged :
     fmm { kind := "t1", rank := 3, inner := some FAttrs.empty, perm := none, cstConst := true, cstShape := [],
-          cst := 2.0, fix5 := true } = "count=0" := by decide
+          cst := 2.0 } = "count=0" := by decide
 
-/-- With the rank ≥ 3 repair the rank-2 identity permutation no longer fires the batch rule (C19-F4). -/
-theorem flipped_batch_rank2_repaired :
+/-- The current batch rules (rank ≥ 3) do not fire on the rank-2 identity permutation. -/
+theorem flipped_batch_rank2_left_unchanged :
     fmm { kind := "t1", rank := 2, inner := some FAttrs.empty, perm := some [0, 1], cstConst := true,
-          cstShape := [], cst := 2.0, fix4 := true } = "count=0" := by decide
+          cstShape := [], cst := 2.0 } = "count=0" := by decide
 
-/-- `Div(MatMul(x,y), [[c]])`: one element, rank 2 — the rewrite raises (finding C19-F9). -/
-theorem fused_matmul_div_rank2_divisor_raises :
+/-- Before commit fe00de2 the same graph fired the batch rule and received `transBatchA=1` (finding C19-F4). -/
+theorem flipped_batch_rank2_prefix_refuted :
+    fmm { kind := "t1", rank := 2, inner := some FAttrs.empty, perm := some [0, 1], cstConst := true,
+          cstShape := [], cst := 2.0, fix4 := false }
+      = "count=1 FusedMatMul@com.microsoft{transBatchA=1}(x,y)->1" := by decide
+
+/-- Before commit 6dfb298: `Div(MatMul(x,y), [[c]])`, one element, rank 2 — the rewrite raised (finding C19-F9, fixed). -/
+theorem fused_matmul_div_rank2_divisor_prefix_refuted :
     fmm { kind := "div", rank := 3, inner := none, perm := none, cstConst := true, cstShape := [1, 1],
-          cst := 0.5 } = "EXC" := by decide
+          cst := 0.5, fix9 := false } = "EXC" := by decide
 
-/-- … and with the repair (divisor of rank ≤ 1 only) it is left unchanged. -/
-theorem fused_matmul_div_rank2_divisor_repaired :
+/-- The current rule (divisor of rank ≤ 1, one element) leaves it unchanged. -/
+theorem fused_matmul_div_rank2_divisor_left_unchanged :
     fmm { kind := "div", rank := 3, inner := none, perm := none, cstConst := true, cstShape := [1, 1],
-          cst := 0.5, fix9 := true } = "count=0" := by decide
+          cst := 0.5 } = "count=0" := by decide
 
-/-- **The repaired `MatMulTranspose.rewrite` emits the flags `fused_matmul_transposes` asks for**: for an inner
-`(transA, transB) = (a, b)` the swapped operands get `(1-b, 1-a)`; the rule as first found emits `(1-a, 1-b)`,
+/-- **`MatMulTranspose.rewrite` emits the flags `fused_matmul_transposes` asks for**: for an inner
+`(transA, transB) = (a, b)` the swapped operands get `(1-b, 1-a)`; the rule before commit a12b4ef emitted `(1-a, 1-b)`,
 which agrees only when `a = b`. -/
 theorem mt_flags (a b : Int) :
     mtFlags true a b = (1 - b, 1 - a) ∧ mtFlags false a b = (1 - a, 1 - b)
@@ -467,14 +473,14 @@ theorem softmax_axis (dt up down : Nat) (ax : Option Int) :
 
 /-- `bias_gelu.py` checks the rank of the bias only: a length-1 bias next to a last dimension of 8 is accepted
 (finding C19-F1: the fused `BiasGelu` is rejected by onnxruntime). -/
-theorem bias_gelu_check_insufficient :
-    biasGelu false false (some [.int 2, .int 8]) (some [.int 1]) = "count=1 BiasGelu@com.microsoft{}(a,b)->1" := by
+theorem bias_gelu_check_prefix_refuted :
+    biasGeluV false false (some [.int 2, .int 8]) (some [.int 1]) = "count=1 BiasGelu@com.microsoft{}(a,b)->1" := by
   decide
 
-/-- **The repaired `BiasGeluFusion.check` is sufficient for what `BiasGelu` demands**: whenever it accepts
+/-- **`BiasGeluFusion.check` is sufficient for what `BiasGelu` demands**: whenever it accepts
 `(input, bias)`, the bias is 1-D of a static length `n` and the input's shape is known, non-scalar, with last
 dimension exactly `n` — for every shape, symbolic or not. -/
-theorem bias_gelu_repaired_check_sound (input bias : Option Shape) (h : biasOk true input bias = true) :
+theorem bias_gelu_check_sound (input bias : Option Shape) (h : biasOk true input bias = true) :
     ∃ n ish, bias = some [.int n] ∧ input = some ish ∧ ish.getLast? = some (.int n) := by
   unfold biasOk at h
   simp only [Bool.not_true, Bool.false_or, Bool.and_eq_true] at h
@@ -497,7 +503,7 @@ theorem bias_gelu_repaired_check_sound (input bias : Option Shape) (h : biasOk t
           | unk => simp [hl] at h2
 
 example : biasOk true (some [.int 2, .int 8]) (some [.int 8]) = true := by decide
-example : biasGelu true false (some [.int 2, .int 8]) (some [.int 1]) = "count=0" := by decide
+example : biasGelu false (some [.int 2, .int 8]) (some [.int 1]) = "count=0" := by decide
 
 /-- `RmsNormFusion` with `Mul(scale_cast, normalized)`: the `scale` variable is bound to the value *before*
 its `Cast` (dtype float16 = 10) while the product is computed in float (1); the fused operator's output type
